@@ -275,6 +275,12 @@ type c19Variant struct {
 }
 
 func genC19(ctx *Ctx) {
+	c19Run(ctx, "localhost", true)
+	// a bundle whose host is an IP literal: the name to verify is that address
+	c19Run(ctx, "127.0.0.1", false)
+}
+
+func c19Run(ctx *Ctx, host string, timed bool) {
 	r := ctx.Rng
 	now := time.Now()
 	day := 24 * time.Hour
@@ -283,38 +289,42 @@ func genC19(ctx *Ctx) {
 	inter := c19Make("bundle intermediate", ca, true, now.Add(-day), now.Add(300*day), nil, nil)
 	notCA := c19Make("not a CA", ca, false, now.Add(-day), now.Add(300*day), []string{"issuer.example"}, nil)
 	client := c19Make("bundle client", ca, false, now.Add(-day), now.Add(365*day), nil, nil)
-	const host = "localhost"
 	hostID1, hostID2 := "a2e24181-d732-402a-ab06-894a8b2f6094", "0fd5d5c3-6c0b-4b2e-9b1c-7d1d8b0f5a11"
 	lo := []string{host}
-	good := c19Make(host, ca, false, now.Add(-day), now.Add(30*day), lo, nil)
+	var hostIPs []net.IP
+	if ip := net.ParseIP(host); ip != nil {
+		lo, hostIPs = nil, []net.IP{ip}
+	}
+	good := c19Make(host, ca, false, now.Add(-day), now.Add(30*day), lo, hostIPs)
 	variants := func() []c19Variant {
 		t := time.Now()
-		selfSignedCA := c19Make(host, nil, true, t.Add(-day), t.Add(30*day), lo, nil)
-		viaInter := c19Make(host, inter, false, t.Add(-day), t.Add(30*day), lo, nil)
+		selfSignedCA := c19Make(host, nil, true, t.Add(-day), t.Add(30*day), lo, hostIPs)
+		viaInter := c19Make(host, inter, false, t.Add(-day), t.Add(30*day), lo, hostIPs)
 		return []c19Variant{
 			{"valid leaf", []*c19Cert{good}},
 			{"valid leaf, bundle CA presented too", []*c19Cert{good, ca}},
-			{"leaf under another CA", []*c19Cert{c19Make(host, otherCA, false, t.Add(-day), t.Add(30*day), lo, nil)}},
-			{"leaf under another CA, that CA presented", []*c19Cert{c19Make(host, otherCA, false, t.Add(-day), t.Add(30*day), lo, nil), otherCA}},
-			{"self-signed leaf", []*c19Cert{c19Make(host, nil, false, t.Add(-day), t.Add(30*day), lo, nil)}},
+			{"leaf under another CA", []*c19Cert{c19Make(host, otherCA, false, t.Add(-day), t.Add(30*day), lo, hostIPs)}},
+			{"leaf under another CA, that CA presented", []*c19Cert{c19Make(host, otherCA, false, t.Add(-day), t.Add(30*day), lo, hostIPs), otherCA}},
+			{"self-signed leaf", []*c19Cert{c19Make(host, nil, false, t.Add(-day), t.Add(30*day), lo, hostIPs)}},
 			{"self-signed CA certificate as leaf", []*c19Cert{selfSignedCA}},
 			{"wrong DNS name", []*c19Cert{c19Make("other.example", ca, false, t.Add(-day), t.Add(30*day), []string{"other.example"}, nil)}},
 			{"name of the node (SNI) but not of the bundle host", []*c19Cert{c19Make(hostID1, ca, false, t.Add(-day), t.Add(30*day), []string{hostID1, hostID2}, nil)}},
 			{"name only in the common name", []*c19Cert{c19Make(host, ca, false, t.Add(-day), t.Add(30*day), nil, nil)}},
 			{"IP name only", []*c19Cert{c19Make(host, ca, false, t.Add(-day), t.Add(30*day), nil, []net.IP{net.ParseIP("127.0.0.1")})}},
-			{"expired", []*c19Cert{c19Make(host, ca, false, t.Add(-30*day), t.Add(-time.Hour), lo, nil)}},
-			{"expired a minute ago", []*c19Cert{c19Make(host, ca, false, t.Add(-30*day), t.Add(-time.Minute), lo, nil)}},
-			{"not yet valid", []*c19Cert{c19Make(host, ca, false, t.Add(time.Hour), t.Add(30*day), lo, nil)}},
+			{"another IP address only", []*c19Cert{c19Make(host, ca, false, t.Add(-day), t.Add(30*day), nil, []net.IP{net.ParseIP("127.0.0.2")})}},
+			{"expired", []*c19Cert{c19Make(host, ca, false, t.Add(-30*day), t.Add(-time.Hour), lo, hostIPs)}},
+			{"expired a minute ago", []*c19Cert{c19Make(host, ca, false, t.Add(-30*day), t.Add(-time.Minute), lo, hostIPs)}},
+			{"not yet valid", []*c19Cert{c19Make(host, ca, false, t.Add(time.Hour), t.Add(30*day), lo, hostIPs)}},
 			{"leaf via intermediate, intermediate presented", []*c19Cert{viaInter, inter}},
 			{"leaf via intermediate, intermediate and CA presented", []*c19Cert{viaInter, inter, ca}},
 			{"leaf via intermediate, intermediate missing", []*c19Cert{viaInter}},
 			{"leaf via intermediate, wrong intermediate presented", []*c19Cert{viaInter, otherCA}},
-			{"leaf issued by a certificate that is not a CA", []*c19Cert{c19Make(host, notCA, false, t.Add(-day), t.Add(30*day), lo, nil), notCA}},
+			{"leaf issued by a certificate that is not a CA", []*c19Cert{c19Make(host, notCA, false, t.Add(-day), t.Add(30*day), lo, hostIPs), notCA}},
 			{"untrusted CA-flagged certificate first, genuine leaf second", []*c19Cert{selfSignedCA, good}},
-			{"untrusted leaf first, genuine leaf second", []*c19Cert{c19Make(host, nil, false, t.Add(-day), t.Add(30*day), lo, nil), good}},
+			{"untrusted leaf first, genuine leaf second", []*c19Cert{c19Make(host, nil, false, t.Add(-day), t.Add(30*day), lo, hostIPs), good}},
 			{"wrong-name leaf first, genuine leaf second", []*c19Cert{c19Make("other.example", ca, false, t.Add(-day), t.Add(30*day), []string{"other.example"}, nil), good}},
 			{"genuine leaf first, unrelated certificates after it", []*c19Cert{good, otherCA, selfSignedCA}},
-			{"expired intermediate", []*c19Cert{c19Make(host, c19ExpiredInter(ca, t), false, t.Add(-day), t.Add(30*day), lo, nil), c19LastInter}},
+			{"expired intermediate", []*c19Cert{c19Make(host, c19ExpiredInter(ca, t), false, t.Add(-day), t.Add(30*day), lo, hostIPs), c19LastInter}},
 		}
 	}
 
@@ -358,8 +368,8 @@ func genC19(ctx *Ctx) {
 		if !accepted {
 			sniOK, certOK = false, false
 		}
-		ctx.Emit(hv.L(hv.I(1), hv.I(at.Unix()), roots, chainV(v.chain)), hv.L(hv.Bool(accepted), hv.Bool(sniOK), hv.Bool(certOK), hv.Bool(leaked)), kind+": "+v.name)
-		ctx.Count(kind)
+		ctx.Emit(hv.L(hv.I(c19NameID(host)), hv.I(at.Unix()), roots, chainV(v.chain)), hv.L(hv.Bool(accepted), hv.Bool(sniOK), hv.Bool(certOK), hv.Bool(leaked)), kind+": "+v.name)
+		ctx.Count(kind + ":bundle-host-" + host)
 	}
 
 	// ---- (A) the metadata service presents each chain ----
@@ -376,7 +386,7 @@ func genC19(ctx *Ctx) {
 		seen := meta.take()
 		sniOK, certOK := false, false
 		for _, s := range seen {
-			sniOK = sniOK || s.sni == host
+			sniOK = sniOK || s.sni == host || (hostIPs != nil && s.sni == "") // TLS clients send no server name for an IP literal
 			certOK = certOK || bytes.Equal(s.clientCert, client.der)
 		}
 		reqs := meta.takeRequests()
@@ -453,9 +463,12 @@ func genC19(ctx *Ctx) {
 			connect(targets[r.Intn(2)], v)
 		}
 	}
+	if !timed {
+		return
+	}
 	// ---- (C) the same endpoint object, used again after its server's certificate has expired ----
 	soon := time.Now().Add(3 * time.Second)
-	short := c19Variant{"leaf expiring three seconds after the endpoint was created", []*c19Cert{c19Make(host, ca, false, now.Add(-day), soon, lo, nil)}}
+	short := c19Variant{"leaf expiring three seconds after the endpoint was created", []*c19Cert{c19Make(host, ca, false, now.Add(-day), soon, lo, hostIPs)}}
 	connect(targets[0], short)
 	connect(targets[1], short)
 	time.Sleep(time.Until(soon.Add(1500 * time.Millisecond)))
@@ -463,7 +476,7 @@ func genC19(ctx *Ctx) {
 	connect(targets[1], short)
 	// and endpoints created while the certificate was not yet valid, used once it is
 	startsSoon := time.Now().Add(2 * time.Second)
-	later := c19Variant{"leaf that becomes valid two seconds after the endpoint was created", []*c19Cert{c19Make(host, ca, false, startsSoon, now.Add(30*day), lo, nil)}}
+	later := c19Variant{"leaf that becomes valid two seconds after the endpoint was created", []*c19Cert{c19Make(host, ca, false, startsSoon, now.Add(30*day), lo, hostIPs)}}
 	connect(targets[0], later)
 	time.Sleep(time.Until(startsSoon.Add(1500 * time.Millisecond)))
 	connect(targets[0], later)
